@@ -43,6 +43,7 @@ class Program:
     note: str = ""
     env_globals: dict = field(default_factory=dict)
     known: tuple | None = None  # (finding signature, region(env, prog) -> z3 Bool): inputs of a listed known finding
+    assume: object = None  # callable(env) -> list of z3 constraints: the user's own assertions (e.g. data inside set_index divisions)
 
     @property
     def name(self):
@@ -123,6 +124,8 @@ def make_env(prog: Program):
                                     optional_rows=s.optional_rows, sym_index=sym_index)
         if sym_index:
             _constrain_index(env, s)
+    if prog.assume is not None:
+        env.assume(*prog.assume(env))
     return env, frames
 
 
@@ -1050,3 +1053,154 @@ def check_two_programs(prog: Program, other_text: str, label: str, mk_plan=None,
     if a_plan._name == b_plan._name:
         r.extra["trivial"] = True
     return [r]
+
+
+# ---------------------------------------------------------------------------------------------- C06 divisions truthful
+
+USER_ASSERTED = ("SetDivisions", "FromDelayed", "FromMap", "FromGraph", "FromMapProjectable")
+
+
+def check_divisions(prog: Program) -> list[Result]:
+    """C06: for every node of the unoptimised and of the optimised plan that reports known divisions (not merely passing on
+    what the user asserted at a source), every valid row of computed partition i has div[i] <= index < div[i+1]
+    (<= for the last), for all index labels / cell values; npartitions equals the number of output keys."""
+    init()
+    from symdf.core import Unsupported, StructuralError, And, Or, Not, I
+    from symdf.interp import GraphError, run_graph
+    from symdf import conc, core
+    from dask_expr._expr import optimize
+
+    env, frames = make_env(prog)
+    out = []
+    try:
+        q = prog.build(make_collections(prog, frames))
+    except Exception as e:
+        return [Result(prog.name + "|divisions", SKIPPED, "", f"program does not build: {type(e).__name__}: {str(e)[:160]}")]
+    for stage, mk in (("unopt", lambda e: e.lower_completely()), ("fused", lambda e: optimize(e, fuse=True).lower_completely())):
+        name = f"{prog.name}|divisions|{stage}"
+        sig = _sig(prog, "divisions|" + stage)
+        payload = {"engine": "P", "program": prog.name, "stage": "divisions|" + stage}
+        try:
+            pl = mk(q.expr)
+        except Exception as e:
+            out.append(Result(name, SKIPPED, "", f"planning failed: {type(e).__name__}: {str(e)[:100]}"))
+            continue
+        # static structure of every node
+        static = None
+        for node in pl.walk():
+            try:
+                d = node.divisions
+            except Exception:
+                continue
+            if len(d) != node.npartitions + 1:
+                static = f"{type(node).__name__}: {len(d)} division entries for {node.npartitions} partitions"
+                break
+            if d and d[0] is not None and not all(x is not None for x in d):
+                static = f"{type(node).__name__}: divisions mix None and values: {d}"
+                break
+            if d and d[0] is not None:
+                try:
+                    ok = all(d[i] <= d[i + 1] for i in range(len(d) - 1))
+                except TypeError:
+                    ok = True
+                if not ok:
+                    static = f"{type(node).__name__}: divisions not sorted: {d}"
+                    break
+        if static:
+            out.append(Result(name, VIOLATION, sig, static, payload))
+            continue
+
+        holder = {}
+
+        def once():
+            parts, it = run_graph(pl, env)
+            holder["it"] = it
+            return dict(it.memo)
+
+        try:
+            paths = core.explore(once, lambda: z3.Solver(), base=env.constraints)
+        except (Unsupported, StructuralError, GraphError) as e:
+            out.append(Result(name, SKIPPED, "", f"unsupported: {e}", extra={"unsupported": str(e)}))
+            continue
+        except Exception as e:
+            out.append(Result(name, SKIPPED, "", f"interpreter: {type(e).__name__}: {str(e)[:120]}", extra={"unsupported": str(e)[:80]}))
+            continue
+        bad = []
+        nodes_checked = 0
+        for node in pl.walk():
+            if type(node).__name__ in USER_ASSERTED:
+                continue
+            try:
+                d = node.divisions
+            except Exception:
+                continue
+            if not d or d[0] is None:
+                continue
+            try:
+                dv = [int(x) for x in d]
+            except (TypeError, ValueError):
+                continue
+            nodes_checked += 1
+            for pc, memo in paths:
+                if isinstance(memo, Exception):
+                    continue
+                for i in range(node.npartitions):
+                    v = memo.get((node._name, i))
+                    if v is None or not hasattr(v, "valid"):
+                        continue
+                    idx = v.index_ if hasattr(v, "index_") else getattr(v, "idx", None)
+                    if idx is None or not idx.defined or idx.labels:
+                        continue
+                    last = i == node.npartitions - 1
+                    for s in range(v.nslots):
+                        x = idx.vals[s]
+                        if isinstance(x, tuple):
+                            continue
+                        x = I(x)
+                        inside = And(x >= dv[i], (x <= dv[i + 1]) if last else (x < dv[i + 1]))
+                        bad.append((And(pc, v.valid[s], Not(inside)), type(node).__name__, i, dv))
+        if not bad:
+            out.append(Result(name, HELD, "", f"no node reports derived known divisions ({nodes_checked} nodes)", extra={"trivial": True}))
+            continue
+        r, model, dt = solve(env.constraints, Or(*[b[0] for b in bad]))
+        if r == "unsat":
+            out.append(Result(name, HELD, "", f"unsat: {len(bad)} row conditions over {nodes_checked} nodes with known divisions", None, dt, 1))
+            continue
+        if r != "sat":
+            out.append(Result(name, INCONCLUSIVE, "", "z3 unknown", None, dt, 1))
+            continue
+        which = [b for b in bad if z3.is_true(model.eval(b[0], model_completion=True))][:1]
+        tables = conc.tables_from_model(env, model)
+        fr, present = _frames_of(tables)
+        # replay on the real code: compute every node's partitions and compare with its divisions
+        try:
+            qq = prog.build(make_collections(prog, fr, present))
+            pl2 = mk(qq.expr)
+            found = None
+            for node in pl2.walk():
+                if type(node).__name__ in USER_ASSERTED:
+                    continue
+                d = node.divisions
+                if not d or d[0] is None:
+                    continue
+                parts = concrete_parts(node)
+                for i, part in enumerate(parts):
+                    if not hasattr(part, "index") or not len(part):
+                        continue
+                    ix = part.index if not isinstance(part, pd.Index) else part
+                    lastp = i == len(parts) - 1
+                    okp = all((d[i] <= x) and ((x <= d[i + 1]) if lastp else (x < d[i + 1])) for x in ix)
+                    if not okp:
+                        found = f"{type(node).__name__} partition {i} holds index {list(ix)} but reports divisions {d}"
+                        break
+                if found:
+                    break
+        except Exception as e:
+            found = None
+            out.append(Result(name, HARNESS_ERROR, sig, f"model says rows fall outside {which[0][1:] if which else ''} but the replay crashed: {type(e).__name__}: {e}", payload, dt, 1))
+            continue
+        if found:
+            out.append(Result(name, VIOLATION, sig, found, dict(payload, tables={k: v[0].reset_index().to_dict('list') for k, v in tables.items()}), dt, 1))
+        else:
+            out.append(Result(name, HARNESS_ERROR, sig, f"model: rows outside reported divisions at {which[0][1:] if which else ''}, but the real partitions respect them", payload, dt, 1))
+    return out
